@@ -8,6 +8,7 @@ CONSTANT MaxLoss = 2
 CONSTANT MaxSeq = 4
 CONSTANT FixedCancel = TRUE
 CONSTANT Limit <- NoLimit
+CONSTANT PowerLocked = TRUE
 INVARIANT TypeOK
 INVARIANT WriteByOwner
 INVARIANT TxnAtomic
